@@ -7,6 +7,7 @@ package vgirpc
 // reopen) — the per-session lock is free.
 
 import (
+	"strings"
 	"bytes"
 	"context"
 	"net/http"
@@ -80,6 +81,14 @@ func TestVerifReplay(t *testing.T) {
 			return 0, err
 		}
 		return 1, nil
+	})
+	var long *c29State
+	Unary(s, "openlong", func(_ context.Context, c *CallContext, p c29P) (int64, error) {
+		// a handler-chosen TTL far beyond the server default
+		if err := c.OpenSession(long, 10*time.Hour); err != nil {
+			return 0, err
+		}
+		return 5, nil
 	})
 	Unary(s, "touch", func(_ context.Context, c *CallContext, p c29P) (int64, error) { return 2, nil })
 	Unary(s, "finish", func(_ context.Context, c *CallContext, p c29P) (int64, error) { c.CloseSession(); return 3, nil })
@@ -171,8 +180,14 @@ func TestVerifReplay(t *testing.T) {
 	if st.n() != 1 {
 		t.Errorf("expiry: Close ran %d times", st.n())
 	}
-	// draining refuses new sessions, shutdown closes the live ones once
+	// draining refuses new sessions, shutdown closes the live ones once — whatever their TTL
 	_, _, live := open()
+	long = &c29State{}
+	lw := c29Call(t, h, "openlong", map[string]string{stickySessionAcceptHeader: "true"})
+	longTok := lw.Header().Get(stickySessionHeader)
+	if longTok == "" {
+		t.Fatalf("long-TTL session was not opened: %v", lw.Header())
+	}
 	h.stickyRegistry.SetDraining(true)
 	cur = &c29State{}
 	if w := c29Call(t, h, "open", map[string]string{stickySessionAcceptHeader: "true"}); w.Header().Get(stickySessionHeader) != "" {
@@ -182,6 +197,16 @@ func TestVerifReplay(t *testing.T) {
 	h.stickyRegistry.shutdown()
 	if live.n() != 1 || reopened.n() != 1 {
 		t.Errorf("shutdown: live state closed %d times, reopened state %d times; want 1 and 1", live.n(), reopened.n())
+	}
+	if long.n() != 1 {
+		t.Errorf("shutdown: the long-TTL session's state was closed %d times, want 1", long.n())
+	}
+	if left := c29Entries(h); len(left) != 0 {
+		t.Errorf("shutdown left %d entries in the registry", len(left))
+	}
+	h.stickyRegistry.SetDraining(false)
+	if w := c29Call(t, h, "touch", map[string]string{stickySessionHeader: longTok}); !strings.Contains(w.Body.String(), "session_lost") && !strings.Contains(w.Body.String(), "SessionLost") {
+		t.Errorf("a session token still resolves after shutdown (status %d)", w.Code)
 	}
 	h.stickyRegistry.stopReaper()
 }
